@@ -116,7 +116,9 @@ Proof.
     assert (NT : forallb nocat (map EMsync (arrange ord2 (files s)) ++ [EReset; ESetLen; EAck]) = true)
       by (rewrite forallb_app, nocat_map by reflexivity; reflexivity).
     pose proof (nocat_pres _ s2 NT) as E'. rewrite T2 in E'. unfold catpart in E'. inversion E' as [[F1 F2 F3 F4 F5]].
-    unfold Cb. rewrite F1, F2, F3, F4, F5. repeat split; auto.
+    unfold Cb. rewrite F2, F3, F4, F5, !F1. repeat split; auto.
+    + intros t0 H. rewrite E1 in H. exact H.
+    + intros t0 [].
 Qed.
 
 Lemma run_cb : forall os s, Cb s ->
@@ -169,7 +171,7 @@ Proof.
       with (create_prefix t h r hi ri ++ [EAddTab t] ++ cat_save ++ [EMetaW; EMetaSync; EAck]).
     rewrite !rename_ok_app, rename_ok_save. rewrite (rename_ok_nocat (create_prefix t h r hi ri)) by reflexivity. reflexivity.
   - cbn [events]. rewrite !rename_ok_app, rename_ok_save. rewrite (rename_ok_nocat (ckpt_evs s ord1)) by apply nocat_ckpt.
-    rewrite rename_ok_nocat; [reflexivity |]. rewrite forallb_app, nocat_map by reflexivity. reflexivity.
+    rewrite (rename_ok_nocat (map EMsync (arrange ord2 (files s)))) by (apply nocat_map; reflexivity). reflexivity.
 Qed.
 
 Lemma Cb_init : Cb init.
